@@ -270,8 +270,9 @@ func c09Finalized(c *core.Ctx) {
 	}
 }
 
-func c09LeafHash(c *core.Ctx) {
-	const rule = "C09-leafhash"
+func c09LeafHash(c *core.Ctx) { leafHashRule(c, "C09-leafhash") }
+
+func leafHashRule(c *core.Ctx, rule string) {
 	lx := core.NewLayout()
 	get := func(pkg, recv, name string) (string, *ssa.Function) {
 		fn := c.MustFn(rule, pkg, recv, name)
@@ -300,8 +301,9 @@ func c09LeafHash(c *core.Ctx) {
 	}
 }
 
-func c09GER(c *core.Ctx) {
-	const rule = "C09-ger"
+func c09GER(c *core.Ctx) { gerRule(c, "C09-ger") }
+
+func gerRule(c *core.Ctx, rule string) {
 	lx := core.NewLayout()
 	check := func(pkg, recv, name, want string) {
 		fn := c.MustFn(rule, pkg, recv, name)
